@@ -259,6 +259,8 @@ mod sx {
         "##.generic",
         "*$removeparam=utm",
         "||x.com^$removeparam=ref",
+        "@@||gh.com^$generichide",
+        "gh.com##.own",
     ];
 
     #[derive(Clone, Copy, Debug, PartialEq)]
@@ -266,6 +268,8 @@ mod sx {
         Check(usize),
         Csp,
         Cosmetic,
+        /// url_cosmetic_resources of a page with the opposite generichide verdict
+        CosmeticGh,
         Hidden,
     }
     const URLS: &[&str] = &[
@@ -295,6 +299,11 @@ mod sx {
                 let hs: BTreeSet<_> = r.hide_selectors.into_iter().collect();
                 format!("{:?} {} {}", hs, r.injected_script.len(), r.generichide)
             }
+            Q::CosmeticGh => {
+                let r = e.url_cosmetic_resources("https://gh.com/");
+                let hs: BTreeSet<_> = r.hide_selectors.into_iter().collect();
+                format!("{:?} {} {}", hs, r.injected_script.len(), r.generichide)
+            }
             Q::Hidden => {
                 let mut v = e.hidden_class_id_selectors(["generic"], ["x"], &Default::default());
                 v.sort();
@@ -313,6 +322,8 @@ mod sx {
             ("2x2-mixed", vec![vec![Cosmetic, Check(5)], vec![Csp, Hidden]]),
             ("2x2-rewrite", vec![vec![Check(6), Check(0)], vec![Check(7), Check(6)]]),
             ("2x2-excepted", vec![vec![Check(8), Check(0)], vec![Check(2), Check(8)]]),
+            // the same page twice in one thread, a page with the opposite generichide verdict in the other
+            ("2x2-cosmetic", vec![vec![Cosmetic, Cosmetic], vec![CosmeticGh, Cosmetic]]),
         ]
     }
 
@@ -548,7 +559,7 @@ fn sync_main(tier: vh::Tier) -> i32 {
         let max_bound = match (tier, *name) {
             (vh::Tier::Quick, "3x2") => 1, // 3x2 with 2 preemptions is 10 660 schedules (~40 s): thorough only
             (vh::Tier::Quick, _) => 2,
-            (vh::Tier::Thorough, "2x2") | (vh::Tier::Thorough, "2x2-mixed") | (vh::Tier::Thorough, "2x2-rewrite") | (vh::Tier::Thorough, "2x2-excepted") => 4,
+            (vh::Tier::Thorough, "2x2") | (vh::Tier::Thorough, "2x2-mixed") | (vh::Tier::Thorough, "2x2-rewrite") | (vh::Tier::Thorough, "2x2-excepted") | (vh::Tier::Thorough, "2x2-cosmetic") => 4,
             (vh::Tier::Thorough, _) => 3,
         };
         for b in 0..=max_bound {
@@ -690,7 +701,7 @@ fn sync_main(tier: vh::Tier) -> i32 {
     }
     ctx.finish(
         "model_checking",
-        "(a) every interleaving of the thread plans (2x2, 3x1, 3x2, 2x3, 2x2-mixed, 2x2-rewrite, 2x2-excepted: real OS threads on one shared real engine of the Sync build, regex-heavy rules, always-discard policy) with at most k preemptions, k = 0..bound, explored by stateless DFS; scheduling points at the real regex-manager lock (try_lock decides blocking) and inside the critical section; oracle per schedule: every answer equals the single-thread answer of a fresh engine, no panic, no deadlock, lock not poisoned; (b) one engine per list of C01's quick universe (+ cosmetic rules): all answers hashed by the single-thread build and recomputed by the thread-safe build; states = distinct traces + engines, transitions = scheduling points + queries; non-trivial = distinct traces",
+        "(a) every interleaving of the thread plans (2x2, 3x1, 3x2, 2x3, 2x2-mixed, 2x2-rewrite, 2x2-excepted, 2x2-cosmetic: real OS threads on one shared real engine of the Sync build, regex-heavy rules, always-discard policy) with at most k preemptions, k = 0..bound, explored by stateless DFS; scheduling points at the real regex-manager lock (try_lock decides blocking) and inside the critical section; oracle per schedule: every answer equals the single-thread answer of a fresh engine, no panic, no deadlock, lock not poisoned; (b) one engine per list of C01's quick universe (+ cosmetic rules): all answers hashed by the single-thread build and recomputed by the thread-safe build; states = distinct traces + engines, transitions = scheduling points + queries; non-trivial = distinct traces",
         &[
             "no preemption between two scheduling points: sound if no shared mutable state is touched outside the lock (checked separately, non-exhaustively, by a free-running Miri pass in the thorough tier)",
             "weak-memory behaviours below the mutex are not modelled",
